@@ -23,6 +23,7 @@ def run(m: Model, r: Report, tier: str) -> None:
     r.rule("R5", "control words other than ack/data are queued as int; _unpack_frame closes, then raises BrokenPipeError", floor=3)
     r.rule("R6", "ack predicate = {control word is Ack, (src,dst) = (tester, ecu), data = first 5 request bytes}; data filter uses the swapped pair", floor=5)
     r.rule("R7", "frames skipped while waiting are re-queued before returning", floor=2)
+    r.rule("R9", "write path: Data frame with Len = payload + address header, written and drained before the ack wait", floor=3)
     r.rule("R8", "the ack wait is bounded by ack_timeout; on timeout the connection is closed and BrokenPipeError raised", floor=3)
 
     mod = m.module(HSFZ)
@@ -127,6 +128,21 @@ def run(m: Model, r: Report, tier: str) -> None:
     r.check(mutex is not None and all(mutex in lm.held_syntactic(wr, w) for w in waits) and
             all(mutex in lm.held_syntactic(wr, n) for n in ast.walk(wr.node) if isinstance(n, ast.Call) and ast.unparse(n.func) == "self.write_frame"),
             "R8", f"{wr.qualname}#write-and-ack-atomic", "write and ack wait must form one critical section under the connection mutex", loc=wr.loc)
+
+    # ---------------------------------------------------------------- R9 write path
+    wd = m.require_function(f"{HSFZ}.HSFZConnection.write_diag_request")
+    wsrc = ast.unparse(wd.node).replace(" ", "")
+    r.check(f"HSFZHeader(Len=len(data)+{rsize},CWord=HSFZStatus.Data)" in wsrc and "HSFZDiagReqHeader(src_addr=self.src_addr,dst_addr=self.dst_addr)" in wsrc and
+            "awaitself.write_diag_request_raw(hdr,req_hdr,data)" in wsrc, "R9", f"{wd.qualname}#frame",
+            f"a request must be framed as Data with Len = len(data) + {rsize} and the (tester, ecu) address pair", loc=wd.loc)
+    order = [ast.unparse(n) for n in ast.walk(wr.node) if isinstance(n, ast.Await)]
+    iw = next((i for i, t in enumerate(order) if "self.write_frame(" in t), None)
+    ia = next((i for i, t in enumerate(order) if "self._read_ack(" in t), None)
+    r.check(iw is not None and ia is not None and iw < ia, "R9", f"{wr.qualname}#write-then-ack", "the frame must be written before waiting for its ack", loc=wr.loc)
+    wf = m.require_function(f"{HSFZ}.HSFZConnection.write_frame")
+    fs = [ast.unparse(n) for n in ast.walk(wf.node) if isinstance(n, (ast.Expr, ast.AugAssign))]
+    r.check("self.writer.write(buf)" in fs and "await self.writer.drain()" in fs and "buf += hdr.pack()" in fs and "buf += req_hdr.pack()" in fs and "buf += data" in fs,
+            "R9", f"{wf.qualname}#sends", "write_frame must send header, address header and data and drain", loc=wf.loc)
 
     r.assumptions += ["asyncio.StreamReader.readexactly returns exactly n bytes or raises"]
     r.not_decided += ["orderings such as data-before-ack (re-queue at the tail can reorder: schedule dependent)", "segmentation (delegated to readexactly)"]
